@@ -554,7 +554,10 @@ int main(int argc, char** argv) {
     explore_sequences("sel32", o32, b, depth, "");
     std::map<uint64_t, Sch> bound = {{0, args_sch<int>()}, {127, args_sch<int>()}, {128, args_sch<int>()}, {0xffffffffULL, args_sch<int>()},
                                      {If32::Named::Selector, args_sch<int>()}};
-    explore_bad_requests<std::uint32_t>("sel32", o32, [&](Conn& c) { serve_once(c, b); }, bound, {65536, 1, 126, 129, 0xfffffffeULL});
+    explore_bad_requests<std::uint32_t>("sel32", o32, [&](Conn& c) { serve_once(c, b); }, bound,
+                                        // 2^32 + a bound selector and friends arrive as U64: not a valid encoding of a 32-bit selector at all
+                                        {65536, 1, 126, 129, 0xfffffffeULL, (1ULL << 32) | 0, (1ULL << 32) | 127, (1ULL << 32) | 128, (7ULL << 32) | 0xffffffffULL,
+                                         (1ULL << 63) | (std::uint64_t)If32::Named::Selector, ~0ULL});
   }
   R.add("negative_controls_flagged", 0);
 #else
